@@ -111,10 +111,33 @@ def main():
             nowtxt = stale
         n += 1
         c_first += 1 if first else 0
-        c_now += 1 if (ev and ev.get("caught_by") and not stale) or (not ev and first) else 0
+        c_now += 1 if not stale and ((ev and ev.get("caught_by")) or (not ev and first)) else 0
         n_stale = locals().get("n_stale", 0) + (1 if stale else 0)
         out.append("| %s | %s | %s | %s | %s |" % (sid, meta["property"], desc, firsttxt, first_sentences(nowtxt, 260)))
     out += ["", "Totals: %d seeded changes; caught at first evaluation %d; caught now %d; %d no longer applicable to the current tree (see their rows)." % (n, c_first, c_now, locals().get("n_stale", 0)), ""]
+    # ---- D. reverted fixes
+    try:
+        rv = json.load(open(os.path.join(ROOT, "seeded", "reverts.json")))
+        out += ["## D. Reverted fixes (generated from seeded/reverts.json)", "",
+                "Every `fix:` commit recorded as fixed was reverted in a scratch worktree of /repo at %s and the owning quick check run against it "
+                "(`tools/revert_eval.py`): %d reverts, %d raise an alarm, %d are missed, %d skipped (the revert no longer applies because a later fix rewrote the site, "
+                "or the reverted tree does not build)." % (rv.get("repo_head"), rv["total"], rv["caught"], rv["missed"], rv["skipped"]), ""]
+        missed = [r for r in rv["results"] if r["result"] == "MISSED"]
+        if missed:
+            out += ["Missed (the defect is no longer reachable through the inputs of the quick tier, or it is masked by a later fix):", ""]
+            for r in missed:
+                out.append("* %s %s - %s" % (r["property"], r["commit"], first_sentences(r.get("what", ""), 200)))
+            out.append("")
+        byp = {}
+        for r in rv["results"]:
+            d = byp.setdefault(r["property"], [0, 0, 0])
+            d[0 if r["result"] == "caught" else 1 if r["result"] == "MISSED" else 2] += 1
+        out += ["| property | caught | missed | skipped |", "|---|---|---|---|"]
+        for pid in sorted(byp):
+            out.append("| %s | %d | %d | %d |" % (pid, byp[pid][0], byp[pid][1], byp[pid][2]))
+        out.append("")
+    except Exception as ex:
+        pass
     path = os.path.join(ROOT, "DESIGN.md")
     src = open(path).read()
     head = src.split(MARK)[0].rstrip() + "\n\n"
